@@ -17,7 +17,7 @@
   /* arenas and sub-processes */ \
   X(reserve_arena) X(manage_arena) X(subproc_new) X(subproc_add) \
   /* simulation */ \
-  X(spawn) X(join) X(barrier) X(thread_done) X(thread_init) X(advance) X(heal_os) X(nop) \
+  X(spawn) X(join) X(barrier) X(thread_done) X(thread_init) X(advance) X(heal_os) X(fill_page) X(free_page) X(nop) \
   /* oracles */ \
   X(verify_all) X(visit_heap) X(visit_abandoned) X(census) X(check_owner) X(free_all) X(expect_empty_heap) X(giveback_check) X(footprint_mark) \
   X(arena_fill_check) X(purge_check) X(pc_sample) \
